@@ -635,6 +635,33 @@ func ruleV4(c *Ctx) {
 			continue
 		}
 		info := pk.TypesInfo
+		// call sites of the package's functions, with the case clause each lies in (a bridge moved into a
+		// helper `func binaryToken(op Opcode) Token` is judged by the clause its caller lies in)
+		callClauses := map[types.Object][]*ast.CaseClause{}
+		for _, f := range pk.Syntax {
+			var st []ast.Node
+			ast.Inspect(f, func(n ast.Node) bool {
+				if n == nil {
+					st = st[:len(st)-1]
+					return true
+				}
+				st = append(st, n)
+				if call, ok := n.(*ast.CallExpr); ok {
+					if id, ok := call.Fun.(*ast.Ident); ok {
+						if fo, ok := info.Uses[id].(*types.Func); ok {
+							var cl *ast.CaseClause
+							for i := len(st) - 1; i >= 0 && cl == nil; i-- {
+								if cc, ok := st[i].(*ast.CaseClause); ok {
+									cl = cc
+								}
+							}
+							callClauses[fo] = append(callClauses[fo], cl)
+						}
+					}
+				}
+				return true
+			})
+		}
 		for _, f := range pk.Syntax {
 			// track enclosing case clauses
 			var stack []ast.Node
@@ -687,6 +714,36 @@ func ruleV4(c *Ctx) {
 					}
 				}
 				excluded := map[string]bool{}
+				var helperBody *ast.BlockStmt
+				if clause == nil {
+					// not inside a case clause: a helper function whose parameter is the converted value
+					for i := len(stack) - 1; i >= 0; i-- {
+						fd, ok := stack[i].(*ast.FuncDecl)
+						if !ok {
+							continue
+						}
+						if fo := info.Defs[fd.Name]; fo != nil && fd.Recv == nil && !fd.Name.IsExported() {
+							sites := callClauses[fo]
+							if len(sites) == 1 && sites[0] != nil {
+								clause = sites[0]
+								helperBody = fd.Body
+							}
+						}
+						break
+					}
+				}
+				if helperBody != nil {
+					ast.Inspect(helperBody, func(m ast.Node) bool {
+						if ifs, ok := m.(*ast.IfStmt); ok {
+							if cb, ok := ifs.Cond.(*ast.BinaryExpr); ok && (cb.Op == token.EQL || cb.Op == token.NEQ) {
+								if tn, _, nm, ok := typeOfConst(info, cb.Y); ok && tn == fromT {
+									excluded[nm] = true
+								}
+							}
+						}
+						return true
+					})
+				}
 				if clause != nil && clause.List != nil {
 					for _, e := range clause.List {
 						if tn, _, nm, ok := typeOfConst(info, e); ok && tn == fromT {
